@@ -6,7 +6,18 @@ UNIT_RLIMIT = {}
 T_FELT = 'T1 field model prelude/felt.rs: assumed contracts on winter-math BaseElement (new/as_int/add/sub/mul/neg/inv/eq/from) — external crate'
 T_TOOLS = 'T10 Verus 0.2026.09.13, Z3, rustc; machine integers are checked (not mathematical)'
 
+T_RPO = 'T4 RPO hash (miden-crypto hash_elements / merge_in_domain) uninterpreted; collision resistance NOT assumed'
+
 PROPS = {
+    'C08': {
+        'level': 'proof',
+        'units': ['span_batch'],
+        'kani': [],
+        'trusted_base': [T_FELT, T_RPO, T_TOOLS],
+        'not_decided': ['RPO collision resistance', 'assembler emits identical ops with/without comments/debug (see C14 bounded family)'],
+        'sample_obligations': ['C08/span_batch/batch_ops#ensures.2 : concat_ops(batches) == ops (order preserving, nothing dropped)',
+                               'C08/span_batch/OpBatchAccumulator::add_op#ensures.0 : representation invariant wf() preserved (<=9 ops/group, <=8 groups, immediates in the next groups, imm-op never 9th)'],
+    },
     'C15': {
         'level': 'proof',
         'units': ['system'],
